@@ -13,6 +13,8 @@ func init() {
 	register(&PropertyCheck{ID: "C06", Level: "proof", Run: checkC06, Canaries: []Canary{
 		{Name: "body-plus-one", Rule: "R6.2", Where: "ReadRemaining", Edits: []Edit{{"packet.go", "make([]byte, int(f.remainingLen))", "make([]byte, int(f.remainingLen)+1)"}}},
 		{Name: "body-masked", Rule: "R6.2", Where: "ReadRemaining", Edits: []Edit{{"packet.go", "make([]byte, int(f.remainingLen))", "make([]byte, int(f.remainingLen&0xffff))"}}},
+		{Name: "body-size-truncated-to-16-bits", Rule: "R6.2", Where: "ReadRemaining", Edits: []Edit{{"packet.go", "make([]byte, int(f.remainingLen))", "make([]byte, int(uint16(f.remainingLen)))"}}},
+		{Name: "body-size-via-wider-type", Silent: true, Edits: []Edit{{"packet.go", "make([]byte, int(f.remainingLen))", "make([]byte, int(uint64(f.remainingLen)))"}}},
 		{Name: "body-bare-read", Rule: "R6.1", Where: "ReadRemaining", Edits: []Edit{{"packet.go", "io.ReadFull(r, data)", "r.Read(data)"}}},
 		{Name: "bufio-wrap", Rule: "R6.1", Where: "ReadPacket", Edits: []Edit{
 			{"packet.go", "\tvar fh fixedHeader\n", "\tr = bufio.NewReader(r)\n\tvar fh fixedHeader\n"},
@@ -55,6 +57,51 @@ func (a addrClass) same(b addrClass) bool {
 		return a.alloc == b.alloc
 	}
 	return a.structT == b.structT && a.field == b.field
+}
+
+// stripConvsSafe removes ChangeType and integer conversions that cannot lose bits on either
+// supported word size (int/uint/uintptr count as 8 bytes as a source and 4 as a destination,
+// and as equal among themselves).
+func stripConvsSafe(v ssa.Value) ssa.Value {
+	size := func(b *types.Basic, asSrc bool) int {
+		switch b.Kind() {
+		case types.Int8, types.Uint8, types.Bool:
+			return 1
+		case types.Int16, types.Uint16:
+			return 2
+		case types.Int32, types.Uint32:
+			return 4
+		case types.Int64, types.Uint64:
+			return 8
+		case types.Int, types.Uint, types.Uintptr:
+			if asSrc {
+				return 8
+			}
+			return 4
+		}
+		return -1
+	}
+	word := func(b *types.Basic) bool {
+		return b.Kind() == types.Int || b.Kind() == types.Uint || b.Kind() == types.Uintptr
+	}
+	for {
+		switch x := v.(type) {
+		case *ssa.ChangeType:
+			v = x.X
+		case *ssa.Convert:
+			a, ok1 := x.X.Type().Underlying().(*types.Basic)
+			b, ok2 := x.Type().Underlying().(*types.Basic)
+			if !ok1 || !ok2 || a.Info()&types.IsInteger == 0 || b.Info()&types.IsInteger == 0 {
+				return v
+			}
+			if !(word(a) && word(b)) && (size(b, false) < size(a, true) || size(a, true) < 0 || size(b, false) < 0) {
+				return v
+			}
+			v = x.X
+		default:
+			return v
+		}
+	}
 }
 
 // stripConvs removes Convert/ChangeType wrappers (no arithmetic).
@@ -300,7 +347,7 @@ func checkBodySite(p *Prog, c *Check, u ReaderUse, onPath map[*ssa.Function]bool
 			_ = k1
 		}
 	}
-	lenV := stripConvs(ms.Len)
+	lenV := p.stripNonNarrowing(ms.Len)
 	ld, ok := lenV.(*ssa.UnOp)
 	if !ok || ld.Op.String() != "*" {
 		c.Bad("R6.2", cons, pos, "body size is not a plain conversion of the stored length value (arithmetic or masking on the way): "+describeVal(ms.Len))
@@ -483,7 +530,7 @@ func checkBodySite(p *Prog, c *Check, u ReaderUse, onPath map[*ssa.Function]bool
 			} else {
 				continue
 			}
-			l2, ok := stripConvs(x).(*ssa.UnOp)
+			l2, ok := p.stripNonNarrowing(x).(*ssa.UnOp)
 			if !ok || l2.Op.String() != "*" {
 				continue
 			}
